@@ -80,7 +80,7 @@ impl LspProject {
                 Err(diagnostics) => diagnostics
                     .into_iter()
                     .filter(|d| d.file_ids().contains(&file_id))
-                    .map(|d| map_diagnostic(d, self.wrapped.as_ref()))
+                    .map(|d| map_diagnostic_for_file(d, &file_id, self.wrapped.as_ref()))
                     .collect(),
             };
         } else {
@@ -281,6 +281,37 @@ impl From<LspTokenType> for Option<SemanticToken> {
             token_type,
             token_modifiers_bitset: 0,
         })
+    }
+}
+
+/// Convert diagnostic type into the LSP diagnostic type for the document
+/// having the file identifier.
+///
+/// The diagnostic is for the document so the position must be a position in
+/// that document. When the primary label is in another file, this uses the
+/// first secondary label that is in the document.
+fn map_diagnostic_for_file(
+    diagnostic: ironplc_dsl::diagnostic::Diagnostic,
+    file_id: &FileId,
+    project: &dyn Project,
+) -> lsp_types::Diagnostic {
+    let label_in_file = if &diagnostic.primary.file_id == file_id {
+        None
+    } else {
+        diagnostic
+            .secondary
+            .iter()
+            .find(|label| &label.file_id == file_id)
+            .cloned()
+    };
+    match label_in_file {
+        Some(label) => {
+            let range = map_label(&label, project);
+            let mut mapped = map_diagnostic(diagnostic, project);
+            mapped.range = range;
+            mapped
+        }
+        None => map_diagnostic(diagnostic, project),
     }
 }
 
